@@ -11,6 +11,7 @@ Semantics rendered from thespian/system/actorManager.py (multiproc bases, what R
   * ChildActorExited is delivered to the parent's handler, then the child is forgotten;
   * messages to actors that have exited are dropped (dead letters); a message whose target could not be created (no actor system
     satisfies the requirements) comes back as PoisonMessage and the parent gets ChildActorExited;
+  * a message an actor sends to itself is not delayed (it never leaves the process);
   * wakeupAfter => WakeupMessage(delay, payload) from the actor to itself after delay (+ drawn lateness);
   * createActor places the child on the first host whose capabilities satisfy actorSystemCapabilityCheck (checked on the coordinator
     first, like the convention leader does).
@@ -276,7 +277,11 @@ class SimRuntime:
 
     # ------------------------------------------------------------------ sending
     def send(self, sender_addr, target_addr, msg, kind="msg"):
-        delay = self.delays(kind, sender_addr, target_addr, msg)
+        if str(sender_addr) == str(target_addr):
+            # a message to oneself never leaves the process: Thespian queues it locally, it is handled on the next turn of the actor
+            delay = 0.0
+        else:
+            delay = self.delays(kind, sender_addr, target_addr, msg)
         self._enqueue(str(sender_addr), target_addr, msg, sender_addr, delay)
 
     def tell(self, target_addr, msg):
